@@ -195,7 +195,7 @@ func Stub(l *Log, gate bool) evm.BeginExecFunc {
 			switch {
 			case tx == nil:
 				e.Note = "tx=nil"
-			case ti == nil || tx.Hash() != ti.hash:
+			case ti == nil || safeHash(tx) != ti.hash || ti.kind == Undecodable:
 				e.Note = "tx-is-not-the-decoding-of-raw"
 			}
 			l.Events = append(l.Events, e)
@@ -207,6 +207,17 @@ func Stub(l *Log, gate bool) evm.BeginExecFunc {
 		}
 		return exec, end
 	}
+}
+
+// safeHash hashes a transaction object that may be a half-decoded carcass
+// (the zero hash then).
+func safeHash(tx *types.Transaction) (h common.Hash) {
+	defer func() {
+		if recover() != nil {
+			h = common.Hash{}
+		}
+	}()
+	return tx.Hash()
 }
 
 // String renders the log canonically, e.g. "B X0:0V E:0V:ok | B E:1B:err | …".
